@@ -103,6 +103,16 @@ SIBLINGS = {
     'C01-r2-1': ['C01', 'C02'],   # label/goto renamed inconsistently: the renaming relation is C02's oracle
     'C01-r2-3': ['C01', 'C02'],   # name map shared between minifier runs: non-injective renaming (C02)
     'C01-r3-2': ['C01', 'C02'],   # an unrenamed identifier collides with an earlier generated name: non-injective renaming (C02)
+    'C08-r4-3': ['C08', 'C14'],   # the AST *walker* skips if-blocks (the parser's tree is intact): require() inside an if is not packaged (C14)
+}
+
+# changes whose author's demonstration is not a violation of the property as stated (kept for the record, not counted as misses)
+NOT_A_VIOLATION = {
+    'C09-r4-3': 'only affects `0xff..s` (hex/binary numeral directly followed by `..`), which the Lua 5.2 / PICO-8 lexer rejects as a malformed '
+                'number: not a valid program, so outside the domain of C09 (and of the reference lexer)',
+    'C14-r4-2': 'a require() inside a stripped game-loop function is followed: if its file is missing the build fails, which the statement '
+                'prescribes for a require() whose file cannot be found; if it exists one more required name is defined once - neither '
+                'contradicts the statement',
 }
 
 
@@ -123,6 +133,8 @@ def main():
             r = detect(name, tier, SIBLINGS.get(name))
             results.setdefault(name, {})[tier] = r
             results[name]['detected_' + tier] = any(v['exit'] == 1 for v in r.values())
+            if name in NOT_A_VIOLATION:
+                results[name]['not_a_violation'] = NOT_A_VIOLATION[name]
             json.dump(results, open(path, 'w'), indent=1, sort_keys=True)
 
 
